@@ -822,6 +822,10 @@ class Ev:
             raise Unsupported("field %s missing on %s" % (n, b.adt))
         if isinstance(b, Tup) and n.isdigit() and int(n) < len(b.items):
             return b.items[int(n)]
+        if isinstance(b, Sym) and b.tag[:1] == ("ctor",) and n.isdigit() and 2 + int(n) < len(b.tag) and b.tag[1] not in ("Some", "Ok", "Err"):
+            x_ = b.tag[2 + int(n)]          # field k of a tuple-struct value built from known parts
+            if not isinstance(x_, tuple):
+                return x_
         if isinstance(b, Alt):
             raise Unsupported("field of branching value")
         ty = e.get("ty", "")
@@ -2148,6 +2152,22 @@ class Ev:
             if isinstance(recv, Poly) and tgt in ("f64", "f32") or (isinstance(recv, Poly) and tgt in INT_TYPES):
                 return recv
             return Sym("into", tgt, vkey(recv))
+        if m == "map_err" and len(args) == 1 and isinstance(recv, (Sym, Alt)):
+            # Ok(x) stays Ok(x); Err(e) becomes Err(f(e)); an opaque Result continues as its Ok payload (the convention of `?`)
+            def conv_err(v_):
+                if isinstance(v_, Sym) and v_.tag[:2] == ("ctor", "Err") and len(v_.tag) == 3:
+                    f_ = args[0]
+                    if isinstance(f_, Clo):
+                        env2 = dict(f_.env)
+                        self.bind(f_.params[0], v_.tag[2], env2)
+                        return Sym("ctor", "Err", self.collapse(self.eval(f_.body, env2, depth)))
+                    if isinstance(f_, Sym) and f_.tag[:1] in (("fn",), ("ctor",)):
+                        return Sym("ctor", "Err", Sym("call", f_.tag[1], (vkey(v_.tag[2]),)))
+                    return Sym("ctor", "Err", Sym("mapped-error", vkey(v_.tag[2])))
+                return v_
+            if isinstance(recv, Alt):
+                return Alt([(gs[0] if len(gs) == 1 else ("all", gs), xv if isinstance(xv, EarlyRet) else conv_err(xv)) for gs, xv in flat_alts(recv)])
+            return conv_err(recv)
         if isinstance(recv, Sym) and recv.tag and recv.tag[0] == "ctor" and recv.tag[1] in ("Some", "None", "Ok", "Err"):
             # Option / Result combinators on a known constructor
             if recv.tag[1] in ("Some", "Ok") and m in ("unwrap", "expect", "unwrap_or", "unwrap_or_else", "unwrap_or_default") and len(recv.tag) == 3:
